@@ -29,6 +29,8 @@ var c17Items = []string{
 	"t(X)", "u", "pb", "v(X, Y)", "pb2", "pb3",
 	"{X = a}", "{true}", "{fail}", "{Y = X}",
 	"\\+ [a]", "\\+ u", "\\+ pb", "\\+ t(X)",
+	// negated terminal lists that hold variables: whatever the failed lookahead bound must be gone afterwards
+	"\\+ [X, b]", "\\+ [X, Y, a]", "\\+ [a, X]",
 	"!",
 	"call(t, X)", "call(u)", "call(v, X, Y)", "call(v(X), Y)",
 	"([a] ; [b])", "([a] | [b, a])", "(u ; [])", "([a], [b])", "(([a], [b]), [a])", "([a], (u ; [b]))",
@@ -233,7 +235,7 @@ var _ = strings.Join
 func init() {
 	h.Register(&h.Check{
 		ID: "C17",
-		Rule: "all grammars whose rule s(X,Y) --> Body ranges over every sequence of <= L body constructs out of 37 (terminal lists, a non-ASCII string and terminal, strings, non-terminals with arguments, {}/1, \\+, !, call//N with extra arguments, ;, |, nested sequences, if-then(-else), a push-back non-terminal) over fixed non-left-recursive sub-grammars t//1, u//0, pb//0, pb2//0, pb3//0 (push-back of one terminal, of two, of a string), v//2; each in 9 variants (followed by a second rule; loaded through expand_term/2 + assertz/1; with a push-back head of one terminal, of two, of a string, empty, of three, with a head variable; as one of two top-level alternatives) x all input lists over {a,b} of length <= N (plus lists with c) through phrase/2 and phrase/3 (all remainders), and generation mode with unbound list / given remainder. plus non-terminals BUILT AT RUN TIME (=../2, functor/3, copy_term/2) of every arity 0..16 (24), the same term instance used several times in 7 bodies x 4 phrase/2,3 queries; plus sub-bodies behind variables bound at translation time (10 values: cut, sequences with cut, if-then, negation, terminals, alternation, {}//1, call//1) in 8 bodies x 5 queries; plus 7 bodies with a cut NESTED inside a parenthesised alternation / if-then-else x 5 goals before x 5 goals after (known finding: such a cut is local here). Non-trivial = the reference yields an answer or error.",
+		Rule: "all grammars whose rule s(X,Y) --> Body ranges over every sequence of <= L body constructs out of 40 (terminal lists, a non-ASCII string and terminal, strings, non-terminals with arguments, {}/1, \\+, !, call//N with extra arguments, ;, |, nested sequences, if-then(-else), a push-back non-terminal) over fixed non-left-recursive sub-grammars t//1, u//0, pb//0, pb2//0, pb3//0 (push-back of one terminal, of two, of a string), v//2; each in 9 variants (followed by a second rule; loaded through expand_term/2 + assertz/1; with a push-back head of one terminal, of two, of a string, empty, of three, with a head variable; as one of two top-level alternatives) x all input lists over {a,b} of length <= N (plus lists with c) through phrase/2 and phrase/3 (all remainders), and generation mode with unbound list / given remainder. plus non-terminals BUILT AT RUN TIME (=../2, functor/3, copy_term/2) of every arity 0..16 (24), the same term instance used several times in 7 bodies x 4 phrase/2,3 queries; plus sub-bodies behind variables bound at translation time (10 values: cut, sequences with cut, if-then, negation, terminals, alternation, {}//1, call//1) in 8 bodies x 5 queries; plus 7 bodies with a cut NESTED inside a parenthesised alternation / if-then-else x 5 goals before x 5 goals after (known finding: such a cut is local here). Non-trivial = the reference yields an answer or error.",
 		Explanation: "state = one grammar loaded into a fresh real interpreter; transition = one phrase/2,3 query run to exhaustion; compared with a DIRECT interpreter of grammar bodies over difference lists inside the reference machine (sequence threads the remainder, alternation is a choice, {} calls, \\+ consumes nothing, ! commits to the rule, push-back re-prepends) - which never translates a rule - on success/failure, argument bindings, remainder and answer order",
 		Assumptions: []string{"'!' occurs only as a direct element of a rule's top-level sequence or alternative (as C03)", "double_quotes = chars so that \"ab\" denotes [a,b]"},
 		Work:        c17Work,
